@@ -142,6 +142,13 @@ func Layout(r *runner.Rng, toks []Tok, multiline bool) (src string, lines, cols 
 		}
 		lines = append(lines, line)
 		cols = append(cols, col)
+		if t.Text == "not in" && multiline && r.Bool() {
+			// the two words of the operator may be separated by any blank
+			emit("not")
+			emit(layoutSeps[r.Intn(len(layoutSeps))])
+			emit("in")
+			continue
+		}
 		emit(t.Text)
 	}
 	if r.Chance(1, 6) && multiline {
